@@ -88,7 +88,7 @@ func CanonRequest(r *api.GenerateServiceRequest) (canon []string, orderKey strin
 
 type genOptsC10 struct {
 	NoRecurse, NoTypes, NoConstants, NoServiceHelpers, NoEmbedIDL, NoZap, NoVersionCheck, Strict bool
-	OutputFile                                                                                    string
+	OutputFile                                                                                   string
 }
 
 func (g genOptsC10) String() string {
